@@ -1411,6 +1411,34 @@ def _cli_flags_of_subcommand(ctx, dst, src):
             ctx.violation(["cli-flags-of-subcommand", dst, bad[1]], bad[0], site=ctx.site(ca, bb))
         else:
             ctx.ok("Config.%s <- `%s` of the command in effect (%d origins judged)" % (dst, src, len(judged)), site=ctx.site(ca, bb))
+    # .. and every subcommand that HAS such a flag among its own arguments hands it to Config: a `--shell` that can be typed after
+    # `verify` and is never read (the application of the flags hoisted out of the arms and reading `self.<flags>` for all of them) is
+    # silently ignored
+    def has_flag(variant):
+        for f in variant["fields"]:
+            if f["name"] == src:
+                return True
+            sub = binp.adts.get(f.get("adt") or f.get("ty"))
+            if sub and any(g["name"] == src for vv in sub["variants"] for g in vv["fields"]):
+                return True
+        return False
+    under_seen = set()
+    for bb, op, st in field_values(ca, CLI_CONFIG, dst):
+        if op is None and st.get("k") == "assign" and st["rv"]["k"] == "unop":
+            op = st["rv"]["a"]
+        if op is None:
+            continue
+        for l in C.trace(ca, op, through_fields=True, transparent=copies):
+            if l.kind == "field":
+                under_seen |= {v for (o, v, nm) in C.pl_fields(l.data) if o == cmd_adt and v}
+    for variant in binp.adts[cmd_adt]["variants"]:
+        if n and has_flag(variant):
+            if variant["name"] in under_seen:
+                ctx.ok("the `%s` of subcommand %s reaches Config.%s" % (src, variant["name"], dst), site=ctx.site(ca, 0))
+            else:
+                ctx.violation(["cli-subcommand-flag-unread", dst, variant["name"]], "the `%s` flag among the arguments of the `%s` subcommand never "
+                              "reaches Config.%s: what the user types after `%s` is ignored" % (src, variant["name"].lower(), dst, variant["name"].lower()),
+                              site=ctx.site(ca, 0))
     if n == 0:
         ctx.unverified("no store of the `%s` flag into Config.%s found in main's normal form" % (src, dst), site=ctx.site(ca, 0))
 
